@@ -242,3 +242,29 @@ CONTRACTS[TM + "numba_em_cooccurrence_iteration"] = dict(
         "for#3": dict(invariant=["len(windows) == i and len(kernels) == i", "forall(0, i, lambda t: len(kernels[t]) == len(windows[t]))"]),
     },
 )
+
+# multiset EM iteration: the window-flattening loops of the build kernel + em_update_matrix by contract
+CONTRACTS[MS + "numba_multi_em_cooccurrence_iteration"] = dict(
+    params=dict(token_sequences="list[int[]]", window_size_array="int[,]", window_reversals="bool[]", kernel_functions="funcs", kernel_args="opaque",
+                mix_weights="real[]", n_unique_tokens="int", prior_indices="int[]", prior_indptr="int[]", prior_data="real[]"),
+    func_params={"kernel_functions": dict(returns="real[]", ensures=["len(ret) == psum([len(m) for m in arg0], len(arg0))"])},
+    local_types=dict(kernels="list[real[]]", windows="list[int[]]"),
+    ghost_after=[("@assign:result_len", 1, "lemma(psum_monotone(%s))" % _LENS)],
+    requires=_EM_COMMON + _CSR + [
+        "window_size_array.shape[1] >= 1",
+        "forall(0, len(token_sequences), lambda d: forall(0, len(token_sequences[d]), lambda p: 0 <= token_sequences[d][p] and "
+        "token_sequences[d][p] + 1 < len(prior_indptr)))",
+    ],
+    returns="real[]",
+    ensures=["len(result) == len(prior_data)", "unchanged(prior_data) and unchanged(prior_indices) and unchanged(prior_indptr)"],
+    loops={
+        "for#1": dict(invariant=["len(posterior_data) == len(prior_data)"]),
+        "for#2": dict(invariant=["len(posterior_data) == len(prior_data)"]),
+        "for#3": dict(invariant=_MW),
+        "for#4": dict(invariant=["result_len == psum(%s, _k_for4)" % _LENS]),
+        "for#5": dict(invariant=["j == psum(%s, _k_for5)" % _LENS, "len(this_window) == result_len and result_len == psum(%s, len(multi_window))" % _LENS]),
+        "for#6": dict(ghost_init="lemma(psum_bound(%s, _k_for5, len(multi_window)))" % _LENS,
+                      invariant=["j == psum(%s, _k_for5) + _k_for6" % _LENS, "len(this_window) == result_len and result_len == psum(%s, len(multi_window))" % _LENS,
+                                 "j + len(mset) - _k_for6 <= result_len"]),
+    },
+)
